@@ -517,13 +517,6 @@ Proof.
   - rewrite E. now apply cc_match_rsp.
 Qed.
 
-Definition rsp_case (cc : N) (f : N * N * N * N) (text : list N) : bool :=
-  let '(chn, netfn, lun, cmd) := f in
-  res_eqb bytes_eqb (receive (rsp_line chn netfn lun cmd cc text) 1) (Ok [cc]).
-Lemma rsp_sweep :
-  forallb (fun cc => forallb (fun f => forallb (rsp_case cc f) cc_texts) field_samples) all_bytes = true.
-Proof. vm_compute. reflexivity. Qed.
-
 Definition msg_case (e : err) (noise msg : list N) : bool :=
   res_eqb bytes_eqb (receive (noise ++ msg ++ [10]) 1) (Err e) &&
   res_eqb bytes_eqb (receive (noise ++ msg) 1) (Err e).
@@ -560,4 +553,185 @@ Proof.
   - now apply timeout_rule.
   - now apply connection_rule.
   - now apply long_password_rule.
+Qed.
+
+(* ================================================================== the rsp= line, in full *)
+(* a pattern cannot straddle a character it does not contain *)
+Lemma starts_sep pat c : ~ In c pat -> forall A T, starts pat (A ++ c :: T) = starts pat A.
+Proof.
+  induction pat as [|p pr IH]; intros Hc A T; [reflexivity|].
+  destruct A as [|a A]; cbn [app starts].
+  - destruct (p =? c) eqn:E; [|reflexivity].
+    apply N.eqb_eq in E. subst. exfalso. apply Hc. now left.
+  - rewrite IH; [reflexivity | intros H; apply Hc; now right].
+Qed.
+Lemma contains_sep pat c : ~ In c pat -> forall A T,
+  contains pat (A ++ c :: T) = contains pat A || contains pat T.
+Proof.
+  intros Hc A T. induction A as [|a A IH].
+  - cbn [app contains]. change (c :: T) with ([] ++ c :: T) at 1. rewrite (starts_sep pat c Hc).
+    now rewrite orb_false_r.
+  - cbn [app contains]. change (a :: A ++ c :: T) with ((a :: A) ++ c :: T).
+    rewrite (starts_sep pat c Hc), IH. now rewrite orb_assoc.
+Qed.
+Lemma contains_cons_ne p pr x s : (p =? x) = false -> contains (p :: pr) (x :: s) = contains (p :: pr) s.
+Proof. intros H. cbn [contains starts]. now rewrite H. Qed.
+
+Lemma last_key_step key x s : try_key key (x :: s) = None -> last_key key (x :: s) = last_key key s.
+Proof. intros H. cbn [last_key]. rewrite H. now destruct (last_key key s). Qed.
+Lemma try_key_head k key x s : (k =? x) = false -> try_key (k :: key) (x :: s) = None.
+Proof. intros H. unfold try_key. now rewrite strip_prefix_head. Qed.
+Definition kcmd : list N := 99 :: 109 :: B "d=0x".
+Lemma try_cmd_next x n s : (n =? 109) = false -> try_key kcmd (x :: n :: s) = None.
+Proof.
+  intros H. unfold try_key, kcmd. cbn [strip_prefix]. destruct (99 =? x); [|reflexivity].
+  now rewrite N.eqb_sym, H.
+Qed.
+(* no 'm' in A (nor right after it): no "cmd=0x" can start inside A *)
+Lemma last_key_skip_nom A : forall y T, mem 109 (A ++ [y]) = false ->
+  last_key kcmd (A ++ y :: T) = last_key kcmd (y :: T).
+Proof.
+  induction A as [|a A IH]; intros y T H; [reflexivity|].
+  unfold mem in H. cbn [app existsb] in H. apply orb_false_iff in H as [Ha HA].
+  cbn [app]. rewrite last_key_step; [now apply IH|].
+  destruct A as [|n A']; cbn [app].
+  - apply try_cmd_next. cbn in HA. rewrite orb_false_r in HA. now rewrite N.eqb_sym.
+  - apply try_cmd_next. cbn in HA. apply orb_false_iff in HA as [Hn _]. now rewrite N.eqb_sym.
+Qed.
+Lemma try_key_nomatch key h c r : forallb hexlow h = true -> hexlow c = false -> (41 =? c) = false ->
+  try_key key (key ++ h ++ c :: r) = None.
+Proof.
+  intros H Hc H41. unfold try_key. rewrite strip_prefix_app, span_hex_app by assumption.
+  destruct h; [reflexivity|]. cbn [starts]. now rewrite H41.
+Qed.
+
+(* side condition on the description text, decidable *)
+Definition text_ok (text : list N) : bool :=
+  no_nl text && negb (contains (B "failed") text) && negb (contains (B "Unable to establish") text) &&
+  negb (contains (B "rsp=0x") text) && negb (contains (B "cmd=0x") text).
+
+Section RspLine.
+Variables chn netfn lun cmd cc : N.
+Variable text : list N.
+Hypothesis Hcc : cc < 256.
+Hypothesis Htext : text_ok text = true.
+
+Let pre := B "channel=0x" ++ hexl chn ++ B " netfn=0x" ++ hexl netfn ++ B " lun=0x" ++ hexl lun ++
+           B " cmd=0x" ++ hexl cmd ++ B " ".
+Let body := rsp_body chn netfn lun cmd cc text.
+
+Lemma text_facts : no_nl text = true /\ contains (B "failed") text = false /\
+  contains (B "Unable to establish") text = false /\ contains (B "rsp=0x") text = false /\
+  contains (B "cmd=0x") text = false.
+Proof.
+  pose proof Htext as H. unfold text_ok in H.
+  repeat (apply andb_prop in H; destruct H as [H ?]).
+  repeat split; try assumption; now apply negb_true_iff.
+Qed.
+
+Lemma body_shape : body = unable_prefix ++ pre ++ B "rsp=0x" ++ hexl cc ++ B "): " ++ text.
+Proof.
+  unfold body, rsp_body, pre. cbn [B bytes_of_string].
+  repeat (rewrite <- app_assoc; cbn [app]). reflexivity.
+Qed.
+(* everything up to the closing parenthesis *)
+Let head := unable_prefix ++ pre ++ B "rsp=0x" ++ hexl cc.
+Lemma body_split : body = head ++ 41 :: 58 :: 32 :: text.
+Proof.
+  rewrite body_shape. unfold head. cbn [B bytes_of_string]. repeat (rewrite <- app_assoc; cbn [app]). reflexivity.
+Qed.
+Lemma head_mem c : hexlow c = false -> mem c unable_prefix = false -> mem c (B "channel=0x") = false ->
+  mem c (B " netfn=0x") = false -> mem c (B " lun=0x") = false -> mem c (B " cmd=0x") = false ->
+  mem c (B " ") = false -> mem c (B "rsp=0x") = false -> mem c head = false.
+Proof.
+  intros Hc M1 M2 M3 M4 M5 M6 M7. unfold head, pre. rewrite !mem_app.
+  rewrite M1, M2, M3, M4, M5, M6, M7.
+  rewrite (mem_hex c (hexl chn)), (mem_hex c (hexl netfn)), (mem_hex c (hexl lun)), (mem_hex c (hexl cmd)),
+    (mem_hex c (hexl cc)) by (assumption || apply hexl_hexlow). reflexivity.
+Qed.
+
+Lemma body_no_nl : no_nl body = true.
+Proof.
+  destruct text_facts as (Hn & _). rewrite body_split. unfold no_nl in *. rewrite forallb_app. cbn [forallb].
+  rewrite Hn. rewrite (nomem_forallb 10) by (apply head_mem; reflexivity). reflexivity.
+Qed.
+Lemma body_no_failed : contains (B "failed") body = false.
+Proof.
+  destruct text_facts as (_ & Hf & _). rewrite body_split.
+  rewrite contains_sep by (apply nomem_in; reflexivity).
+  rewrite (contains_absent (B "failed") head 105); [| cbn; auto 10 | apply nomem_in; apply head_mem; reflexivity].
+  change (B "failed") with (102 :: B "ailed"). rewrite !contains_cons_ne by reflexivity. exact Hf.
+Qed.
+Lemma body_no_establish : contains (B "Unable to establish") body = false.
+Proof.
+  destruct text_facts as (_ & _ & Hu & _). rewrite body_split.
+  rewrite contains_sep by (apply nomem_in; reflexivity).
+  rewrite (contains_absent (B "Unable to establish") head 105);
+    [| cbn; auto 30 | apply nomem_in; apply head_mem; reflexivity].
+  change (B "Unable to establish") with (85 :: B "nable to establish").
+  rewrite !contains_cons_ne by reflexivity. exact Hu.
+Qed.
+Lemma body_no_timeout : timeout_match body = false.
+Proof.
+  destruct text_facts as (_ & _ & _ & _ & Hc).
+  unfold timeout_match. rewrite body_shape, strip_prefix_app.
+  change (B "cmd=0x") with kcmd.
+  assert (E : last_key kcmd (pre ++ B "rsp=0x" ++ hexl cc ++ B "): " ++ text) = None); [|now rewrite E].
+  set (A1 := B "channel=0x" ++ hexl chn ++ B " netfn=0x" ++ hexl netfn ++ B " lun=0x" ++ hexl lun).
+  set (A2 := B "d=0x" ++ hexl cmd ++ B " rsp=0x" ++ hexl cc ++ B "):").
+  replace (pre ++ B "rsp=0x" ++ hexl cc ++ B "): " ++ text)
+    with (A1 ++ 32 :: (kcmd ++ hexl cmd ++ 32 :: (B "rsp=0x" ++ hexl cc ++ B "): " ++ text)))
+    by (unfold pre, A1, kcmd; cbn [B bytes_of_string]; repeat (rewrite <- app_assoc; cbn [app]); reflexivity).
+  rewrite last_key_skip_nom.
+  2:{ unfold A1. rewrite !mem_app.
+      rewrite (mem_hex 109 (hexl chn)), (mem_hex 109 (hexl netfn)), (mem_hex 109 (hexl lun))
+        by (reflexivity || apply hexl_hexlow). reflexivity. }
+  rewrite last_key_step by (apply try_key_head; reflexivity).
+  change (kcmd ++ hexl cmd ++ 32 :: (B "rsp=0x" ++ hexl cc ++ B "): " ++ text))
+    with (99 :: (109 :: (B "d=0x" ++ hexl cmd ++ 32 :: (B "rsp=0x" ++ hexl cc ++ B "): " ++ text)))).
+  rewrite last_key_step.
+  2:{ change (99 :: (109 :: (B "d=0x" ++ hexl cmd ++ 32 :: (B "rsp=0x" ++ hexl cc ++ B "): " ++ text))))
+        with (kcmd ++ hexl cmd ++ 32 :: (B "rsp=0x" ++ hexl cc ++ B "): " ++ text)).
+      apply try_key_nomatch; [apply hexl_hexlow | reflexivity | reflexivity]. }
+  rewrite last_key_step by (apply try_key_head; reflexivity).
+  replace (B "d=0x" ++ hexl cmd ++ 32 :: (B "rsp=0x" ++ hexl cc ++ B "): " ++ text)) with (A2 ++ 32 :: text)
+    by (unfold A2; cbn [B bytes_of_string]; repeat (rewrite <- app_assoc; cbn [app]); reflexivity).
+  rewrite last_key_skip_nom.
+  2:{ unfold A2. rewrite !mem_app.
+      rewrite (mem_hex 109 (hexl cmd)), (mem_hex 109 (hexl cc)) by (reflexivity || apply hexl_hexlow). reflexivity. }
+  rewrite last_key_step by (apply try_key_head; reflexivity).
+  now apply no_key_anywhere.
+Qed.
+Lemma body_cc : cc_match body = Some cc.
+Proof. destruct text_facts as (_ & _ & _ & Hr & _). rewrite body_shape. now apply cc_match_rsp. Qed.
+
+Theorem rsp_line_full rc : (rc =? 127) = false ->
+  parse_output (rsp_line chn netfn lun cmd cc text) = Ok (Some cc, None) /\
+  receive (rsp_line chn netfn lun cmd cc text) rc = Ok [cc].
+Proof.
+  intros Hrc. split.
+  - unfold rsp_line. fold body. unfold parse_output. rewrite split_line by exact body_no_nl.
+    cbn [parse_lines split_on]. now rewrite body_no_failed, body_no_timeout, body_no_establish, body_cc.
+  - unfold rsp_line. fold body.
+    apply cc_rule; auto using body_no_nl, body_no_failed, body_no_timeout, body_no_establish, body_cc.
+Qed.
+End RspLine.
+
+Lemma cc_texts_ok : forallb text_ok cc_texts = true.
+Proof. vm_compute. reflexivity. Qed.
+
+(* exit status of the child (the rule in _run_ipmitool and the tail of send_and_receive_raw) *)
+Lemma exit_status_rules :
+  (forall out, receive out 127 = Err (OtherError OtherExc)) /\
+  (forall out rc cc rsp, (rc =? 127) = false -> cc < 256 -> parse_output out = Ok (Some cc, rsp) ->
+     receive out rc = Ok [cc]) /\
+  (forall out rc rsp, (rc =? 127) = false -> rc <> 0 -> parse_output out = Ok (None, rsp) ->
+     receive out rc = Err (OtherError OtherExc)) /\
+  (forall out rsp, parse_output out = Ok (None, rsp) ->
+     receive out 0 = Ok (0 :: match rsp with Some bs => bs | None => [] end)).
+Proof.
+  split; [reflexivity|]. split; [|split].
+  - intros out rc cc rsp Hrc Hcc H. unfold receive. rewrite Hrc, H. cbn. apply N.ltb_lt in Hcc. now rewrite Hcc.
+  - intros out rc rsp Hrc H0 H. unfold receive. rewrite Hrc, H. cbn. apply N.eqb_neq in H0. now rewrite H0.
+  - intros out rsp H. unfold receive. change (0 =? 127) with false. cbn iota. now rewrite H.
 Qed.
